@@ -699,7 +699,10 @@ def oracle_ext_frame(case, obs):
     dig = obs.get("digests")
     if not dig:
         return fails
+    residue = set()   # objects on which an empty-text creation was refused half-way (recorded defect)
     for i, (op, st) in enumerate(zip(case["ops"], obs["steps"])):
+        if op["op"] == "bad_add" and op.get("how") == "empty_text" and st["info"].get("raised"):
+            residue.add(str(st["info"].get("target")))
         if st["outcome"] != "done" or op["op"] in ("reopen", "listing") or i + 1 >= len(dig):
             continue
         info = st["info"]
@@ -717,6 +720,12 @@ def oracle_ext_frame(case, obs):
                     return fails
                 continue
             bad = [p for p in mod if p == "header" or not any(("{%s}" % u) in p for u in own)]
+            if bad and "header" not in bad and all(any(("{%s}" % u) in p for u in residue) for p in bad):
+                # recorded defect (C07 text-empty-unwritable): the refused creation left a data node that is not linked under
+                # its object; a later save of an ancestor (first save of a deferred group, a move) links it: the object's
+                # node changes although it is neither target nor parent
+                fails.append({"key": "text-empty-unwritable", "what": f"op {i} {op}: residue of a refused empty-text creation is linked late: {bad[:3]}"})
+                return fails
             if bad:
                 fails.append({"key": "ext-header-changed" if "header" in bad else "ext-collateral-change",
                               "what": f"op {i} {op} (target {info.get('target')}, parents {info.get('parents')}) modified in file {fi}: {bad[:4]}"})
@@ -991,7 +1000,9 @@ def oracle_dh(case, obs):
             copied.add(op["group"])
         if oc.startswith("error"):
             key = "dh-unexpected-exception"
-            if "KeyError" in oc and "'ID'" in oc and _polluted_session(case["ops"][: i + 1]):
+            if "KeyError" in oc and _polluted_session(case["ops"][: i + 1]):
+                # (any KeyError: thorough run 4 showed the empty record also derailing a later hole removal with KeyError
+                # 'Property:DEPTH(1)'; without the look-up miss the same history runs clean)
                 # recorded defect (C04 lookup-miss-appends-empty-record): get_concatenated_attributes(unknown uid) appends an
                 # empty record in memory; when the SAME session also changes something, the flush writes the empty record and
                 # the next open fails.  A session of look-ups only is not explained by it.
